@@ -30,7 +30,7 @@ pub fn configs_c02(tier: Tier) -> Vec<Box<dyn Config>> {
     let tiny = std::env::var("HBMC_TINY").is_ok(); // interpreter-sized spaces (Miri executor)
     let u = if tiny { 2 } else if q { 4 } else { 6 };
     // universes large enough to pass a group (and the small-table minima) for one-byte elements
-    let ubig = if tiny { 3 } else if sse2 { if q { 15 } else { 17 } } else { if q { 8 } else { 10 } };
+    let ubig = if tiny { 3 } else if sse2 { if q { 15 } else { 16 } } else { if q { 8 } else { 9 } };
     all_colls::<Z0>(&mut v, Plan::Zero, 1, tier);
     all_colls::<Z16>(&mut v, Plan::Zero, 1, tier);
     all_colls::<S3>(&mut v, Plan::Seq, u, tier);
@@ -102,7 +102,7 @@ pub fn configs_c03(tier: Tier) -> Vec<Box<dyn Config>> {
     // exactly-once release also when a callback panics (single-fault enumeration, details: C04)
     v.push(super::c04::mk::<TKey, TVal>(if sse2 { Plan::Seq } else { Plan::Zero }, if q { 4 } else { 7 }, vec![vec![]], None, tier, false, "-faults"));
     for coll in [Coll::Set, Coll::Map, Coll::Table] {
-        let h = LayHarness::<D200>::new(coll, Plan::Zero, if q { 5 } else { 8 }, false);
+        let h = LayHarness::<D200>::new(coll, Plan::Zero, if q { 5 } else { 7 }, false);
         let l = format!("{}-release", h.label());
         v.push(Box::new(BfsConfig::new(l, h, Limits { max_wall_s: 60.0, ..Default::default() })));
     }
